@@ -19,21 +19,14 @@ Assumes data is aligned to 4 bytes. If not aligned  then all Bitstream
 accesses will be unaligned and hence  costlier. Since this is codec memory that
 holds emulation prevented data, assumption of aligned to 4 bytes is valid */
 void dec_bits_init(Bitstrm *bs, const uint8_t *data, size_t numbytes) {
-    uint32_t  cur_word;
-    uint32_t  nxt_word;
-    uint32_t  temp;
-    uint32_t *buf;
-    buf          = (uint32_t *)data;
-    temp         = *buf++;
-    cur_word     = TO_BIG_ENDIAN(temp);
-    temp         = *buf++;
-    nxt_word     = TO_BIG_ENDIAN(temp);
-    bs->bit_ofst = 0;
-    bs->buf_base = (uint8_t *)data;
-    bs->buf      = buf;
-    bs->cur_word = cur_word;
-    bs->nxt_word = nxt_word;
-    bs->buf_max  = (uint8_t *)data + numbytes + 8;
+    // the two words read ahead may lie partly or wholly beyond the data: bytes beyond it read as zero
+    const uint8_t *end = data + numbytes;
+    bs->cur_word       = dec_bits_load_word(data, end);
+    bs->nxt_word       = dec_bits_load_word(data + 4, end);
+    bs->bit_ofst       = 0;
+    bs->buf_base       = (uint8_t *)data;
+    bs->buf            = (uint32_t *)(data + 8);
+    bs->buf_max        = (uint8_t *)data + numbytes + 8;
     return;
 }
 
@@ -43,7 +36,7 @@ uint32_t dec_get_bits(Bitstrm *bs, uint32_t numbits) {
     uint32_t bits_read;
     if (0 == numbits)
         return 0;
-    GET_BITS(bits_read, bs->buf, bs->bit_ofst, bs->cur_word, bs->nxt_word, numbits);
+    GET_BITS(bits_read, bs->buf, bs->buf_max - 8, bs->bit_ofst, bs->cur_word, bs->nxt_word, numbits);
     return bits_read;
 }
 
